@@ -90,6 +90,8 @@ def weekdayPlus (w k : Int) : Int := (w + k) % 7
 `(x.year() + dy) / x.month() / <third field of x>`; `dm + x`, `x += dm` are `x + dm`; `x - dm`, `x -= dm` are `x + -dm`.
 The third field (day, weekday_indexed, weekday_last) is `f`: these operations never look at it. -/
 
+/-- [time.cal.ym.nonmembers] `ym1 - ym2`: the number of months from `ym2` to `ym1` -/
+def yearMonthDiff (y1 m1 y2 m2 : Int) : Int := (y1 - y2) * 12 + (m1 - m2)
 /-- (year, month) + n years -/
 def yearMonthPlusYears (y m k : Int) : Int × Int := (y + k, m)
 /-- (year, month, f) + n months: the month is normalised into 1..12, the carry goes into the year, `f` is kept -/
